@@ -550,6 +550,13 @@ impl Runner {
                     }
                 }
             }
+            ["touch", id] => {
+                // a stray file with the name of a chunk that does not exist yet
+                let Some(id) = num(id) else { return self.emit("bad-op") };
+                let p = self.chunk_path(id);
+                let _ = std::fs::OpenOptions::new().write(true).create_new(true).open(&p);
+                gate::g().m.lock().unwrap().files.entry(id).or_default();
+            }
             ["flip", id, pos, mask] => {
                 let (Some(id), Some(pos), Some(mask)) = (num(id), num(pos), num(mask)) else {
                     return self.emit("bad-op");
@@ -896,6 +903,77 @@ impl Runner {
                         self.stopped = true;
                     }
                 }
+            }
+            ["iter2"] => {
+                // one snapshot, walked twice
+                let Some(s) = self.store.as_ref() else { return self.emit("iter2 none") };
+                let r = catch_unwind(AssertUnwindSafe(|| {
+                    let mut d = s.dump_data();
+                    let mut passes = vec![];
+                    for _ in 0..2 {
+                        let mut items = vec![];
+                        for x in d.iter() {
+                            match x {
+                                Ok((id, p)) => items.push(format!("{}:{}", show_id(&id), show_bytes(&p))),
+                                Err(e) => items.push(format!("err:{}", err_kind(&e))),
+                            }
+                        }
+                        passes.push(items.join(";"));
+                    }
+                    passes
+                }));
+                match r {
+                    Ok(p) => self.emit(&format!("iter2 {} | {}", p[0], p[1])),
+                    Err(_) => {
+                        self.emit("iter2 panic");
+                        self.stopped = true;
+                    }
+                }
+            }
+            ["burst", n, t, i] => {
+                // back-pressure: n append+flush pairs issued as fast as possible while the worker
+                // runs freely but slowly, so that the bounded request queue fills up
+                let (Ok(n), Ok(t), Ok(i)) = (n.parse::<u64>(), t.parse::<u64>(), i.parse::<u64>()) else {
+                    return self.emit("bad-op");
+                };
+                if self.store.is_none() {
+                    return self.emit("burst none");
+                }
+                gate::set_mode(Mode::Slow);
+                let mut res = format!("burst ok {}", n);
+                {
+                    let s = self.store.as_mut().unwrap();
+                    for k in 0..n {
+                        let p = gen_bytes(7, k as usize);
+                        let r = catch_unwind(AssertUnwindSafe(|| {
+                            s.append([((t, i + k), p)]).and_then(|_| s.flush(None))
+                        }));
+                        match r {
+                            Ok(Ok(())) => {}
+                            Ok(Err(e)) => {
+                                res = format!("burst err {} at {}", err_kind(&e), k);
+                                break;
+                            }
+                            Err(_) => {
+                                res = format!("burst panic at {}", k);
+                                break;
+                            }
+                        }
+                    }
+                }
+                gate::set_mode(Mode::Free);
+                // wait for the worker to catch up
+                let mut tries = 0;
+                loop {
+                    let st = gate::wait_settled(self.timeout);
+                    if st.starts_with("idle") || st.starts_with("dead") || st == "stuck" || tries > 100000 {
+                        break;
+                    }
+                    tries += 1;
+                }
+                gate::set_mode(Mode::Gated);
+                let _ = gate::take_lines();
+                self.emit(&res);
             }
             ["stat"] => {
                 let Some(s) = self.store.as_ref() else { return self.emit("stat none") };
